@@ -190,6 +190,8 @@ func c05(c *Check) {
 
 	c.Rule("C05/callback-failure-yields-error-ack", "a destination callback whose post-transaction hook fails makes CallPacket fail (CallEVMWithData re-tests res.Failed() after the hook), so the error-acknowledgement branch is taken instead of the success one (shared with C03/C04)", 4)
 	evmHookRule(c, "C05/callback-failure-yields-error-ack")
+	c.Rule("C05/tss-ack-authenticated-by-signer", "a TSS-secured counterparty's acknowledgement is 'verified' only by the identity of the transaction signer: the keeper hands msg.Signer to the TSS client exactly when the client type is TSS and under no other condition (a relayer-supplied proof field would let anybody replay the public TSS address)", 2)
+	tssProofRule(c, "C05/tss-ack-authenticated-by-signer")
 
 	c.Rule("C05/ack-processed-once", "msg server Acknowledgement: outcome recorded, fee paid and callback run once each, only after a verified acknowledgement (shared structure with C03/ack-outcome)", 20)
 	ackSpec(c, "C05/ack-processed-once")
